@@ -17,6 +17,8 @@
 //	leanenc     (ii)  Lean-encode → Go-decode == value.
 //	bytes       (iii) Deserialize of arbitrary / mutated bytes vs the model's verdict; never panics.
 //	witness           the Lean counter-example witnesses replayed on the implementation.
+//	jsonorc           JSON floats through a sampled oracle (hypotheses + real serializer vs
+//	                  Json.encO/decO), []byte in JSON, BinaryData, base64 (jsonorc.go).
 package main
 
 import (
@@ -305,6 +307,7 @@ func main() {
 	}
 	r.sectionSynthetic()
 	r.sectionWitness()
+	r.sectionJsonOrc(minInt(*n, 20000))
 
 	// The documented way to register MessagePack extensions late is to re-create the global
 	// handle with InitMsgpackHandle first. A re-created handle must serialize and deserialize
